@@ -44,6 +44,7 @@ type Profile struct {
 	MultiPct    int      // percent of txs with several messages (default 10)
 	ManyDenoms  bool     // genesis balances in additional denominations sorting before, around and after the native one
 	PExecTail   int      // percent of multi-message txs whose messages after the first are nested in a MsgExec of the first signer
+	PEscrow     int      // percent of stream creations / bank sends aimed at a module account (gov, the two escrows), lower or upper case
 	PRetry      int      // percent of record/purchase operations that retry an earlier rolled-back attempt (same party, same identifier)
 	PForward    int      // percent of follow-up messages after a registration that use that registration (forward reference)
 	PFeePayer   int      // percent of txs with an explicit co-signing fee payer (AuthInfo.Fee.Payer)
@@ -189,6 +190,9 @@ func GenGenesis(t *rapid.T, p *Profile) lab.GenesisCfg {
 			Denom:   "nund",
 			StartID: pick(t, []uint64{1, 1, 7, 1 << 32, 253, 254, 255, 65534, 65535, 1<<32 - 2}, tag+"Start"),
 		}
+		if oneIn(t, 5, tag+"Prepop") {
+			r.Prepop = uniRange(t, 1, 3, tag+"PrepopN")
+		}
 		if oneIn(t, 14, tag+"HugeFee") {
 			// legal but enormous per-slot fee: fee x slots reaches 2^64 for a handful of slots
 			r.FeePur = pick(t, hugeFees, tag+"HugeFeeV")
@@ -318,6 +322,11 @@ func GenOp(t *rapid.T, p *Profile, kind string, nAcc int) Op {
 		if oneIn(t, 10, "rawRecv") {
 			op.Peer = nAcc + uniRange(t, 0, 5, "rawPeer")
 		}
+		if pct(t, p.PEscrow, "escrowRecv") {
+			// the receiver is a module account (governance, the enterprise escrow, the stream escrow), in either spelling
+			op.Peer = nAcc + pick(t, []int{3, 4, 4, 5}, "escrowPeer")
+			op.Upper = uni(t, 2, "escrowUpper") == 1
+		}
 		if oneIn(t, 41, "selfStream") {
 			op.Ref = -3
 		}
@@ -345,6 +354,10 @@ func GenOp(t *rapid.T, p *Profile, kind string, nAcc int) Op {
 		op.Denom = pick(t, []int{0, 0, 1, 2}, "bDenom")
 		if oneIn(t, 3, "toSpecial") {
 			op.Peer = nAcc + uniRange(t, 0, 6, "special")
+		}
+		if pct(t, p.PEscrow, "escrowTo") {
+			op.Peer = nAcc + pick(t, []int{3, 4, 4, 5, 6}, "escrowPeer")
+			op.Upper = uni(t, 2, "escrowUpper") == 1
 		}
 	case StakeDeleg:
 		op.Amt = pick(t, []string{"1", "1000", "1000000"}, "delegAmt")
